@@ -51,6 +51,9 @@ SHELLSETS = {
     "SP": [(0, [0, 1], ["c", "c"], 2), (1, [0], ["c"], 1)],
     "gen": [(0, [0, 0], ["c", "c"], 2), (1, [0], ["c"], 1)],
     "fcart": [(0, [3], ["c"], 1)],
+    # pure d with Cartesian f and the reverse (Gaussian's 5D 10F / 6D 7F)
+    "dpfc": [(0, [2], ["p"], 1), (1, [3], ["c"], 1)],
+    "dcfp": [(0, [2], ["c"], 1), (1, [3], ["p"], 1)],
     # three centres, four shells stored in unsorted centre order, Cartesian and pure d
     "big": [(2, [0], ["c"], 2), (0, [1], ["c"], 1), (1, [2], ["p"], 1), (0, [2], ["c"], 1)],
 }
@@ -304,6 +307,10 @@ def jobs(tier):
             # Cartesian f functions (the formats disagree on their order) with the target's own and with HORTON2 conventions
             for conv in ("own", "horton2"):
                 out.append(job("C01", f"convert[{fmt},fcart,{conv}]", M, "h_convert", dict(fmt=fmt, shells="fcart", conv=conv),
+                               budget_s=300, max_validate=2, oblige_timeout_ms=30000))
+        if fmt in ("fchk", "molden", "molekel"):
+            for shells in ("dpfc", "dcfp"):
+                out.append(job("C01", f"convert[{fmt},{shells},horton2]", M, "h_convert", dict(fmt=fmt, shells=shells, conv="horton2"),
                                budget_s=300, max_validate=2, oblige_timeout_ms=30000))
         out.append(job("C01", f"convert[{fmt},sp,own,ecp]", M, "h_convert", dict(fmt=fmt, shells="sp", conv="own", ecp=True),
                        budget_s=300, max_validate=2))
